@@ -79,6 +79,18 @@ def binop(op, a, b, t):
     return wrap(r, t)
 
 
+_IDX = __import__('re').compile(r'^(.*)\[(-?\d+)\]$')
+
+
+def ptr_add(a, d):
+    """('&', 'X[k]') + d -> ('&', 'X[k+d]'); None if not an indexed address"""
+    if isinstance(a, tuple) and len(a) == 2 and a[0] == '&' and isinstance(a[1], str) and isinstance(d, int):
+        m = _IDX.match(a[1])
+        if m:
+            return ('&', '%s[%d]' % (m.group(1), int(m.group(2)) + d))
+    return None
+
+
 def root_of(path):
     for i, ch in enumerate(path):
         if ch in '.[-' and i > 0:
@@ -251,10 +263,15 @@ class Engine:
             b = self.canon(E, base)
             return None if b is None else '%s.%s' % (b, x.n['f'])
         if x.k == 'idx':
+            iv = self.value_of(E, x.args[1])
+            bv = self.value_of(E, x.args[0])
+            if bv is not TOP and len(bv) == 1 and iv is not TOP and len(iv) == 1:
+                pa = ptr_add(next(iter(bv)), next(iter(iv)))
+                if pa is not None:
+                    return pa[1]
             b = self.canon(E, x.args[0])
             if b is None:
                 return None
-            iv = self.value_of(E, x.args[1])
             if iv is not TOP and len(iv) == 1 and isinstance(next(iter(iv)), int):
                 return '%s[%d]' % (b, next(iter(iv)))
             return '%s[*]' % b
@@ -479,7 +496,7 @@ class Engine:
                 if p and self.trackable(p):
                     if old is not TOP and self.hooks.precise_arith(p):
                         d = 1 if '++' in op else -1
-                        new = frozenset(wrap(e + d, x.type) if isinstance(e, int) else e for e in old)
+                        new = frozenset(wrap(e + d, x.type) if isinstance(e, int) else (ptr_add(e, d) or e) for e in old)
                     E.set(p, new)
                     self.hooks.on_assign(E, x, p, new)
                 elif p:
@@ -603,7 +620,12 @@ class Engine:
         out = set()
         for u in a:
             for v in b:
-                r = binop(op, u, v, t)
+                if op in ('+', '-') and isinstance(u, tuple) and isinstance(v, int):
+                    r = ptr_add(u, v if op == '+' else -v)
+                elif op == '+' and isinstance(v, tuple) and isinstance(u, int):
+                    r = ptr_add(v, u)
+                else:
+                    r = binop(op, u, v, t)
                 if r is None:
                     return BOOL if cmp else TOP
                 out.add(r)
